@@ -3,7 +3,8 @@
 PART A (equivalence).  A small subprocess grammar (xv/c03_gen.py) derives command chains: 1-3 segments joined by
 `&&` `||` `and` `or` `;`, each segment = command word + arguments drawn from the word alphabet of the statement
 (plain words, quoted strings incl. triple-quoted strings of both kinds that span two physical lines, `$V`, `${'V'}`,
-`@(ev)`, `$(..)`, `@$(..)`, redirects, a pipe, trailing `&`, `$V=1` prefix).  Every chain is placed in every statement POSITION (top level, after/before `;`, body of
+`@(ev)`, `$(..)`, `@$(..)`, the same openers with plain ( ) [ ] { } nested one and two levels inside - `@(str(1))`,
+`$(ia @(str((1))))`, `${str('V')}` ... -, redirects, a pipe, trailing `&`, `$V=1` prefix).  Every chain is placed in every statement POSITION (top level, after/before `;`, body of
 if/for/while/with/try/def at depth 1-3 with space/tab indents, backslash continuation at every word boundary,
 one-line compound statements, and after a PRELUDE: earlier statements that bind every identifier of the line only
 in a scope that has ended - parameters of another def / async def / lambda, names local to a function or class body,
@@ -927,7 +928,7 @@ def run(ctx):
         },
         part_a_pairs=na,
         part_a_chains=len(items),
-        part_a_blocks={b["id"]: {k: b[k] for k in ("segs", "words", "kf", "kp", "rich", "exec", "prelude", "family", "fields", "eols") if k in b} for b in _BLOCKS},
+        part_a_blocks={b["id"]: {k: b[k] for k in ("segs", "words", "kf", "kp", "rich", "exec", "prelude", "family", "fields", "eols", "argset") if k in b} for b in _BLOCKS},
         part_a_status=sta,
         part_a_program_executions=executed,
         part_a_both_rejected=sta.get("agree-rejected", 0),
